@@ -30,7 +30,7 @@ HANDLES = ['filename', 'connection', 'cursor', 'mkcurs']
 EXCS = sorted(probes.FAULT_TYPES)
 REQUIRED = (['handle:' + h for h in HANDLES] + ['fn:todb', 'fn:appenddb', 'commit:True', 'commit:False', 'fail:none', 'fail:header',
             'fail:first-row', 'fail:last-row', 'fail:exhaustion', 'rolled-back-load-left-previous-contents', 'commit=False-invisible-until-caller-commits',
-            'long-load', 'source-read-through-the-same-connection', 'pending-load-read-back-through-the-same-connection', 'roundtrip-typed-cells', 'quoted-identifiers', 'sql-statements-traced', 'database-file-name-with-uri-characters', 'schema-qualified', 'fromdb-handle-kinds', 'fromdb-two-readers'] + ['exc:' + e for e in EXCS])
+            'long-load', 'source-read-through-the-same-connection', 'pending-load-read-back-through-the-same-connection', 'roundtrip-typed-cells', 'quoted-identifiers', 'sql-statements-traced', 'transaction-larger-than-the-page-cache', 'database-file-name-with-uri-characters', 'schema-qualified', 'fromdb-handle-kinds', 'fromdb-two-readers'] + ['exc:' + e for e in EXCS])
 EXHAUSTIVE = {'quick': False, 'thorough': False}   # the enumerated families are complete within their bounds, but a seeded random family is judged too
 
 CELLS = [None, 0, 1, -5, 2 ** 40, 1.5, -0.25, '', 'a', "it's", 'say "hi"', 'é€漢', 'x;y', b'', b'\x00\xff', 'NULL', ' lead']
@@ -61,6 +61,15 @@ def cases(ctx):
                     count[0] += 1
                     yield {'fn': fn, 'handle': handle, 'commit': True, 'prior': 2, 'new': n, 'fail': fail, 'flavour': 'plain',
                            'exc': EXCS[count[0] % len(EXCS)] if fail is not None else None, 'schema': None}
+    # loads whose open transaction outgrows the page cache, failing early or at the very end, on every handle kind
+    for fn in ('todb', 'appenddb'):
+        # (a failed load through the caller's own connection stays pending there, and once it has spilled SQLite locks other
+        # connections out until the caller resolves it: only the file-name handle, where petl owns the connection, is judged
+        # after a failure)
+        for handle, n, fail in (('filename', 100, 50), ('filename', 30000, 30000), ('filename', 20000, None), ('connection', 20000, None)):
+            count[0] += 1
+            yield {'fn': fn, 'handle': handle, 'commit': True, 'prior': 30000, 'new': n, 'fail': fail, 'flavour': 'plain',
+                   'exc': EXCS[count[0] % len(EXCS)] if fail is not None else None, 'schema': None, 'wide': True}
     # the rows to load come out of the same database through the same connection (fromdb on the handle that todb / appenddb
     # writes through): reading the source must not disturb the pending load
     for fn in ('todb', 'appenddb'):
@@ -102,13 +111,18 @@ def judge(case, ctx):
     tbl = case.get('table', 't')
     fields = case.get('fields', ['a', 'b'])
     prior = [(100 + i, 'p%d' % i) for i in range(case['prior'])]
+    if case.get('wide'):
+        # rows of ~120 bytes: with tens of thousands of them the open transaction outgrows SQLite's page cache (2 MB by default),
+        # so pages reach the file before the load fails and only the journal can take them back
+        prior = [(a_, b_ + '-' + 'x' * 110) for a_, b_ in prior]
+        ctx.seen('transaction-larger-than-the-page-cache')
     if case['flavour'] == 'typed':
         new = [tuple(r) for r in case['cells']]
         ctx.seen('roundtrip-typed-cells')
         if tbl != 't' or fields != ['a', 'b']:
             ctx.seen('quoted-identifiers')
     else:
-        new = [(i, 'n%d' % i) for i in range(case['new'])]
+        new = [(i, 'n%d' % i + ('-' + 'y' * 110 if case.get('wide') else '')) for i in range(case['new'])]
     n = len(new)
     if n > 1000:
         ctx.seen('long-load')
@@ -220,8 +234,10 @@ def judge(case, ctx):
                 out.append({'kind': 'unexpected-exception', 'detail': raised})
             expected_now = loaded if (commit or handle == 'filename' and commit) else prior
         if util.crows(seen) != util.crows(expected_now):
+            big = len(expected_now) > 200 or len(seen) > 200
             out.append({'kind': 'fresh-connection-sees-wrong-contents', 'when': 'after call returned' if fail is None else 'after call raised',
-                        'expected': expected_now, 'observed': seen, 'statements': stmts[-8:]})
+                        'expected': expected_now if not big else '%d rows, the first: %r' % (len(expected_now), expected_now[:2]),
+                        'observed': seen if not big else '%d rows, the first: %r' % (len(seen), seen[:2]), 'statements': stmts[-8:]})
         elif fail is not None and prior and fail >= 1:
             ctx.seen('rolled-back-load-left-previous-contents')
         # ---- statement log: no COMMIT after the load statements of a failing load
